@@ -216,7 +216,9 @@ func (fx *Fx) runLoop(st *State, lp *loopParts) {
 		c.oblige(st, "inv-entry", clauseAnchor(tag, inv, k), phi, inv.Text, fx.w.pos(lp.node.Pos()))
 		st.assume(phi)
 	}
-	// 2. havoc what the loop may change
+	// 2. havoc what the loop may change.  A dry pass over the body first, so that every heap the body touches has
+	// its sort registered (the havoc below and `unchanged()` in invariants then relate the right constants).
+	fx.dryLoopBody(st, lp)
 	ms := fx.w.modsOfNode(fx, lp.node)
 	head := st
 	for obj := range ms.vars {
@@ -333,4 +335,85 @@ func clauseAnchor(tag string, cl *Clause, k int) string {
 		return tag + "." + cl.Name
 	}
 	return fmt.Sprintf("%s.%d", tag, k+1)
+}
+
+func (fx *Fx) dryLoopBody(st *State, lp *loopParts) {
+	c := fx.c
+	if c.dry {
+		return // already inside a dry pass: nested loops are visited by it
+	}
+	c.dry = true
+	cm := c.mark()
+	savedLits := map[string]string{}
+	for k, v := range c.strLits {
+		savedLits[k] = v
+	}
+	savedOrd, savedJumps, savedLocks, savedLabel := fx.loopOrd, fx.jumps, len(c.locks), fx.pendingLabel
+	var savedRets []int
+	for _, r := range fx.ret {
+		savedRets = append(savedRets, len(r.returns))
+	}
+	defer func() {
+		c.dry = false
+		c.rollback(cm)
+		c.strLits = savedLits
+		for k := range c.specFnDone {
+			if !c.declared["sf_"+k] {
+				delete(c.specFnDone, k)
+			}
+		}
+		fx.loopOrd, fx.jumps, fx.pendingLabel = savedOrd, savedJumps, savedLabel
+		c.locks = c.locks[:savedLocks]
+		for i, r := range fx.ret {
+			if i < len(savedRets) {
+				r.returns = r.returns[:savedRets[i]]
+			}
+		}
+		if r := recover(); r != nil {
+			if _, ok := r.(unsupported); ok {
+				panic(r)
+			}
+			if _, ok := r.(specErr); ok {
+				panic(r)
+			}
+			panic(r)
+		}
+	}()
+	t := st.clone()
+	if lp.counter != "" {
+		fx.setCounter(t, lp, c.freshConst("rk", "Int"))
+	}
+	if lp.atHead != nil {
+		lp.atHead(t)
+	}
+	if lp.condF != nil {
+		lp.condF(t)
+	}
+	jc := &jumpCtx{label: lp.label, isLoop: true}
+	if len(lp.body.List) > 0 {
+		if ls, ok := lp.body.List[0].(*ast.LabeledStmt); ok {
+			jc.gotoLabel = ls.Label.Name
+		}
+	}
+	// jump targets of the enclosing statements are mirrored by throw-away contexts
+	var mirror []*jumpCtx
+	for _, j := range fx.jumps {
+		m := &jumpCtx{label: j.label, isLoop: j.isLoop, isSwitch: j.isSwitch, gotoLabel: j.gotoLabel}
+		if j.fwd != nil {
+			m.fwd = map[string][]*State{}
+			for k := range j.fwd {
+				m.fwd[k] = nil
+			}
+			m.passed = append([]string(nil), j.passed...)
+		}
+		mirror = append(mirror, m)
+	}
+	fx.jumps = append(mirror, jc)
+	if lp.preBody != nil {
+		lp.preBody(t)
+	}
+	fx.execBlock(t, lp.body.List)
+	if lp.postF != nil && !t.dead {
+		lp.postF(t)
+	}
 }
